@@ -10,14 +10,17 @@
        with a panic after the lines printed so far;
      - `match` takes the first arm whose literal equals the value, else the default;
      - a result-returning call yields ok(v) or err(e); `catch` binds the error and gives the fallback;
-     - an optional is none or some(v); `e ?? d` is v or d, `e == none` tests the discriminant.
+     - an optional is none or some(v); `e ?? d` is v or d, `e == none` tests the discriminant;
+     - a function literal captures the variables of its enclosing function (generated programs never
+       change a captured variable after the literal is evaluated, so by-value and by-reference capture agree);
+     - `x op= e`, `x++`, `x--` read and write the place once and wrap at the place's type.
    Programs are JSON ASTs (kind tag k).  Run(P) = [out |-> lines, halt |-> "exit0" | "panic"].
 
    Every value is a tagged record (TLC cannot compare records of different shapes with non-records):
      int  [t |-> "i", ty |-> [s, b], z |-> Z]        bool [t |-> "b", v]        str [t |-> "s", v]
      struct [t |-> "st", f |-> [name -> value]]       array [t |-> "ar", e |-> Seq(value)]
      ref  [t |-> "r", fr |-> frame, p |-> path]       result [t |-> "rs", ok, v]     unit [t |-> "u"]
-     optional [t |-> "o", some, v] *)
+     optional [t |-> "o", some, v]                    closure [t |-> "c", ps, body, env] *)
 EXTENDS BigNum, TLC, Json
 
 Unit == [t |-> "u"]
@@ -128,6 +131,20 @@ EvalE(P, e, st) ==
                         back == [after EXCEPT !.fr = SubSeq(@, 1, Len(@) - 1),
                                               !.ctl = IF Stopped(after) THEN after.ctl ELSE "n", !.ret = Unit]
                     IN [v |-> after.ret, st |-> back]
+      [] e.k = "fnlit" ->          \* function literal: captures the variables of the enclosing frame
+            [v |-> [t |-> "c", ps |-> e.params, body |-> e.body, env |-> st.fr[Cur(st)]], st |-> st]
+      [] e.k = "callv" ->          \* call of a function value held in a variable
+            LET c == st.fr[Cur(st)][e.f]
+                r == EvalArgs(P, e.args, 1, st, <<>>)
+            IN IF Stopped(r.st) THEN [v |-> Unit, st |-> r.st]
+               ELSE LET env == [n \in (DOMAIN c.env) \cup {c.ps[j] : j \in 1 .. Len(c.ps)} |->
+                                   IF \E j \in 1 .. Len(c.ps) : c.ps[j] = n
+                                   THEN r.vs[CHOOSE j \in 1 .. Len(c.ps) : c.ps[j] = n] ELSE c.env[n]]
+                        inner == [r.st EXCEPT !.fr = Append(@, env), !.ctl = "n", !.ret = Unit]
+                        after == ExecB(P, c.body, 1, inner)
+                        back == [after EXCEPT !.fr = SubSeq(@, 1, Len(@) - 1),
+                                              !.ctl = IF Stopped(after) THEN after.ctl ELSE "n", !.ret = Unit]
+                    IN [v |-> after.ret, st |-> back]
       [] e.k = "none" -> [v |-> [t |-> "o", some |-> FALSE, v |-> Unit], st |-> st]
       [] e.k = "some" -> LET a == EvalE(P, e.e, st) IN          \* a value used where an optional is expected
             IF Stopped(a.st) THEN a ELSE [v |-> [t |-> "o", some |-> TRUE, v |-> a.v], st |-> a.st]
@@ -188,6 +205,12 @@ ExecS(P, s, st) ==
       [] s.k = "assign" -> LET a == EvalE(P, s.e, st)           \* right-hand side first, then the target place
                                pl == PlaceOf(P, s.lv, a.st) IN
                            IF Stopped(pl.st) THEN pl.st ELSE WritePlace(pl.st, pl.pl, a.v)
+      [] s.k = "opassign" ->       \* lv op= e (also lv++ / lv--): the place is read and written once, wrapped at its type
+                           LET a == EvalE(P, s.e, st)
+                               pl == PlaceOf(P, s.lv, a.st) IN
+                           IF Stopped(pl.st) THEN pl.st
+                           ELSE LET old == ReadPlace(pl.st, pl.pl) IN
+                                WritePlace(pl.st, pl.pl, IntV(s.ty, WrapTo(Arith(s.op, old.z, a.v.z), s.ty)))
       [] s.k = "print"  -> LET a == EvalE(P, s.e, st) IN
                            IF Stopped(a.st) THEN a.st ELSE [a.st EXCEPT !.out = Append(@, PrintStr(Deref(a.st, a.v)))]
       [] s.k = "expr"   -> EvalE(P, s.e, st).st
